@@ -1362,6 +1362,195 @@ def gen_loops():
     return texts, data
 
 
+
+# ------------------------------------------------------------------ TreeSpace.grow
+def read_grow(fn):
+    b = lambda v: 'true' if v else 'false'
+    F = dict(leafWhenDepthsEqual=False, leafLow='(.lit 99)', leafHigh='(.lit 0)', leafId='(.lit 99)', innerLow='(.lit 99)', innerHigh='(.lit 0)',
+             termThreshold='(.lit 0)', termId='(.lit 99)', funcIndex='(.lit 99)', terminalNode=False, functionNode=False, arityFromTable=False,
+             recursesDeeper=False, firstChildLeft=False, restRightFlagFalse=False, setsParent=False, extraStmts=0)
+    if fn is None or len(fn.args.args) != 3:
+        F['extraStmts'] = 1
+        return '{ ' + ', '.join(f'{k} := {b(v) if isinstance(v, bool) else v}' for k, v in F.items()) + ' }'
+    _, mn, mx = [a.arg for a in fn.args.args]
+
+    def iexp(e, draw):
+        """integer expression over the draw, n_terminals and len(functions)"""
+        if isinstance(e, ast.Constant) and type(e.value) is int and e.value >= 0:
+            return f'(.lit {e.value})'
+        u = ast.unparse(e)
+        if u == 'self.n_terminals':
+            return '.nTerminals'
+        if u == 'len(self.functions)':
+            return '.nFunctions'
+        if draw and u == draw:
+            return '.draw'
+        if isinstance(e, ast.BinOp) and isinstance(e.op, (ast.Add, ast.Sub)):
+            a, c = iexp(e.left, draw), iexp(e.right, draw)
+            if a and c:
+                return f'(.{"add" if isinstance(e.op, ast.Add) else "sub"} {a} {c})'
+        return None
+
+    def draw_of(st):
+        """`name = int(r.generate_uniform_random_number(lo, hi)[0])` -> (name, lo, hi)"""
+        if isinstance(st, ast.Assign) and len(st.targets) == 1 and isinstance(st.targets[0], ast.Name):
+            v = st.value
+            if isinstance(v, ast.Call) and ast.unparse(v.func) == 'int' and len(v.args) == 1 and isinstance(v.args[0], ast.Subscript) \
+                    and ast.unparse(v.args[0].slice) == '0' and isinstance(v.args[0].value, ast.Call) \
+                    and ast.unparse(v.args[0].value.func) == 'r.generate_uniform_random_number' and len(v.args[0].value.args) == 2 \
+                    and not v.args[0].value.keywords:
+                lo, hi = v.args[0].value.args
+                return st.targets[0].id, lo, hi
+        return None
+
+    def terminal_node(st, names):
+        """`return Node(name=T, type='TERMINAL', value=self.terminals[T].position)` -> T (an expression) or None"""
+        if isinstance(st, ast.Return) and isinstance(st.value, ast.Call) and ast.unparse(st.value.func) == 'Node' and not st.value.args:
+            kw = {k.arg: k.value for k in st.value.keywords}
+            if set(kw) == {'name', 'type', 'value'} and ast.unparse(kw['type']) == "'TERMINAL'":
+                t = ast.unparse(kw['name'])
+                if ast.unparse(kw['value']) == f'self.terminals[{t}].position':
+                    return kw['name']
+        return None
+
+    stmts = [s for s in body_of(fn) if not (isinstance(s, ast.Expr) and ast.unparse(s) == 'self._initialize_terminals()')]
+    if len(body_of(fn)) - len(stmts) != 1:                    # exactly one re-initialisation of the terminals is expected
+        F['extraStmts'] += 1
+    if len(stmts) != 1 or not isinstance(stmts[0], ast.If):
+        # guard form: `if …: …return` ; REST
+        if len(stmts) >= 2 and isinstance(stmts[0], ast.If) and not stmts[0].orelse and stmts[0].body and isinstance(stmts[0].body[-1], ast.Return):
+            top = ast.If(test=stmts[0].test, body=stmts[0].body, orelse=stmts[1:])
+        else:
+            F['extraStmts'] += 1
+            return '{ ' + ', '.join(f'{k} := {b(v) if isinstance(v, bool) else v}' for k, v in F.items()) + ' }'
+    else:
+        top = stmts[0]
+    F['leafWhenDepthsEqual'] = ast.unparse(top.test) in (f'{mn} == {mx}', f'{mx} == {mn}')
+    # leaf case
+    leaf = [s for s in top.body]
+    d = draw_of(leaf[0]) if leaf else None
+    if d and len(leaf) == 2:
+        name, lo, hi = d
+        F['leafLow'], F['leafHigh'] = iexp(lo, None) or '(.lit 99)', iexp(hi, None) or '(.lit 0)'
+        t = terminal_node(leaf[1], {name})
+        if t is not None:
+            F['leafId'] = iexp(t, name) or '(.lit 99)'
+            F['terminalNode'] = True
+    else:
+        F['extraStmts'] += 1
+    # inner case
+    inner = list(top.orelse)
+    d = draw_of(inner[0]) if inner else None
+    if not d or len(inner) < 2:
+        F['extraStmts'] += 1
+        return '{ ' + ', '.join(f'{k} := {b(v) if isinstance(v, bool) else v}' for k, v in F.items()) + ' }'
+    nid, lo, hi = d
+    F['innerLow'], F['innerHigh'] = iexp(lo, None) or '(.lit 99)', iexp(hi, None) or '(.lit 0)'
+    rest = inner[1:]
+    if len(rest) >= 2 and isinstance(rest[0], ast.If) and not rest[0].orelse and rest[0].body and isinstance(rest[0].body[-1], ast.Return):
+        rest = [ast.If(test=rest[0].test, body=rest[0].body, orelse=rest[1:])]
+    if len(rest) != 1 or not isinstance(rest[0], ast.If):
+        F['extraStmts'] += 1
+        return '{ ' + ', '.join(f'{k} := {b(v) if isinstance(v, bool) else v}' for k, v in F.items()) + ' }'
+    br = rest[0]
+    tst = br.test
+    if isinstance(tst, ast.Compare) and len(tst.ops) == 1 and isinstance(tst.ops[0], ast.GtE) and ast.unparse(tst.left) == nid:
+        F['termThreshold'] = iexp(tst.comparators[0], nid) or '(.lit 0)'
+    else:
+        F['extraStmts'] += 1
+    # terminal branch: optional `terminal_id = <expr>` then the node
+    tb = list(br.body)
+    env = {}
+    while tb and isinstance(tb[0], ast.Assign) and len(tb[0].targets) == 1 and isinstance(tb[0].targets[0], ast.Name) and iexp(tb[0].value, nid):
+        env[tb[0].targets[0].id] = tb[0].value
+        tb = tb[1:]
+    if len(tb) == 1:
+        t = terminal_node(tb[0], set(env) | {nid})
+        if t is not None:
+            if isinstance(t, ast.Name) and t.id in env:
+                t = env[t.id]
+            F['termId'] = iexp(t, nid) or '(.lit 99)'
+        else:
+            F['terminalNode'] = False
+    else:
+        F['extraStmts'] += 1
+    # function branch
+    fb = list(br.orelse)
+    fnode = None
+    fname = None   # a local holding self.functions[node_id]
+    k = 0
+    while k < len(fb):
+        st = fb[k]
+        if isinstance(st, ast.Assign) and len(st.targets) == 1 and isinstance(st.targets[0], ast.Name):
+            v = st.value
+            if isinstance(v, ast.Subscript) and ast.unparse(v.value) == 'self.functions' and fname is None and fnode is None:
+                fname = (st.targets[0].id, v.slice)
+                k += 1
+                continue
+            if isinstance(v, ast.Call) and ast.unparse(v.func) == 'Node' and not v.args and fnode is None:
+                kw = {q.arg: q.value for q in v.keywords}
+                if set(kw) == {'name', 'type'} and ast.unparse(kw['type']) == "'FUNCTION'":
+                    nm = kw['name']
+                    idx = None
+                    if isinstance(nm, ast.Subscript) and ast.unparse(nm.value) == 'self.functions':
+                        idx = nm.slice
+                    elif isinstance(nm, ast.Name) and fname and nm.id == fname[0]:
+                        idx = fname[1]
+                    if idx is not None:
+                        F['funcIndex'] = iexp(idx, nid) or '(.lit 99)'
+                        F['functionNode'] = True
+                        fnode = st.targets[0].id
+                        k += 1
+                        continue
+        break
+    tail = fb[k:]
+    if fnode and len(tail) == 2 and isinstance(tail[0], ast.For) and not tail[0].orelse and isinstance(tail[0].target, ast.Name) \
+            and isinstance(tail[1], ast.Return) and ast.unparse(tail[1].value) == fnode:
+        lp = tail[0]
+        i_ = lp.target.id
+        fn_name = f'self.functions[{ast.unparse(fname[1])}]' if fname else None
+        it = ast.unparse(lp.iter)
+        F['arityFromTable'] = it in ([f'range(c.N_ARGS_FUNCTION[self.functions[{nid}]])'] + ([f'range(c.N_ARGS_FUNCTION[{fname[0]}])'] if fname and ast.unparse(fname[1]) == nid else []))
+        body = list(lp.body)
+        child = None
+        if body and isinstance(body[0], ast.Assign) and len(body[0].targets) == 1 and isinstance(body[0].targets[0], ast.Name) \
+                and ast.unparse(body[0].value) in (f'self.grow({mn} + 1, {mx})', f'self.grow(1 + {mn}, {mx})'):
+            child = body[0].targets[0].id
+            F['recursesDeeper'] = True
+            body = body[1:]
+        if child and len(body) == 2 and isinstance(body[0], ast.If):
+            iff = body[0]
+            t = ast.unparse(iff.test)
+            first, other = (iff.body, iff.orelse) if t in (f'not {i_}', f'{i_} == 0') else ((iff.orelse, iff.body) if t in (i_, f'{i_} != 0', f'{i_} > 0') else (None, None))
+            if first is not None:
+                F['firstChildLeft'] = [ast.unparse(x) for x in first] == [f'{fnode}.left = {child}']
+                F['restRightFlagFalse'] = sorted(ast.unparse(x) for x in other) == sorted([f'{fnode}.right = {child}', f'{child}.flag = False']) \
+                    and ast.unparse(other[0]) == f'{fnode}.right = {child}'
+            F['setsParent'] = ast.unparse(body[1]) == f'{child}.parent = {fnode}'
+        else:
+            F['extraStmts'] += 1
+    else:
+        F['extraStmts'] += 1
+    return '{ ' + ', '.join(f'{k} := {b(v) if isinstance(v, bool) else v}' for k, v in F.items()) + ' }'
+
+
+_old_gen_loops10 = gen_loops
+
+
+def gen_loops():
+    texts, data = _old_gen_loops10()
+    gp = read_grow(find_method(f'{REPO}/opytimizer/spaces/tree.py', 'TreeSpace', 'grow'))
+    texts['GrowDefs'] = '\n'.join(['-- GENERATED by harness/translate_loops.py from TreeSpace.grow. Do not edit.',
+                                   'import OpyVerif.Model.GrowProg', 'namespace Opy.Gen', 'open Opy', '',
+                                   f'def growProg : GrowProg := {gp}', '', 'end Opy.Gen', ''])
+    texts['Grow'] = '\n'.join(['-- GENERATED by harness/translate_loops.py: obligations re-decided on every build. Do not edit.',
+                               'import OpyVerif.Generated.GrowDefs', 'namespace Opy.Gen', 'open Opy',
+                               '/-- `TreeSpace.grow` reads as the record `Proofs/GrowProg.growProg_is_grow` proves to be `PNode.grow` -/',
+                               'theorem growProg_eq : growProg = Expected.growProg := by decide +kernel',
+                               'end Opy.Gen', ''])
+    data['grow'] = gp
+    return texts, data
+
 if __name__ == '__main__':
     t, d = gen_loops()
     print(t['HeapOpsDefs'])
